@@ -123,6 +123,8 @@ class CfgScenario(explore.Scenario):
                 out.append([m, ss])
         out.append(["ixor_self"])
         out.append(["isub_self"])
+        for k in ("ior_self", "iand_self", "update_self", "update_gen"):
+            out.append([k])
         # observations are operations too: a lookup may plant hidden state
         # (a cached view, a hint) that only a later edit + lookup exposes
         for nm in sorted(w.nodes):
@@ -176,6 +178,8 @@ class CfgScenario(explore.Scenario):
         elif kind in ("ixor_self", "isub_self"):
             new = set()
             want_ret = "self"
+        elif kind in ("ior_self", "iand_self"):
+            want_ret = "self"
         exc = None
         res = None
         try:
@@ -209,6 +213,15 @@ class CfgScenario(explore.Scenario):
                 res = operator.ixor(cfg, cfg)
             elif kind == "isub_self":
                 res = operator.isub(cfg, cfg)
+            elif kind == "ior_self":
+                res = operator.ior(cfg, cfg)
+            elif kind == "iand_self":
+                res = operator.iand(cfg, cfg)
+            elif kind == "update_self":
+                res = cfg.update(cfg)
+            elif kind == "update_gen":
+                # a one-shot iterator over the CFG's own edges
+                res = cfg.update(e for e in cfg)
         except Exception as e:  # noqa
             exc = type(e).__name__
         if exc != want_exc:
